@@ -541,6 +541,61 @@ func c04SeveralFans(ctx *Ctx, idx int) {
 	ctx.Nontrivial(fmt.Sprintf("several-fans|%s|%d|%d|%s|%v", form[0], n, tick, gap, want))
 }
 
+// c04RpmGlitch: a spinning never-stop fan with a tachometer at a constant curve value; now and then one RPM poll fails
+// (I/O error, empty or garbage content). A failed poll says nothing about the fan: the request stays at the steady value.
+func c04RpmGlitch(ctx *Ctx, r *rand.Rand) {
+	for _, kind := range []string{"file", "file-home", "hwmon"} {
+		k, home := homeKind(r, kind)
+		c := pick(r, 0, 0, 1, 37, 128, 255)
+		fan := FanSpec{Kind: k, HomePath: home, NeverStop: true, HasRpm: true, HasPwm: true, HasEnable: kind == "hwmon"}
+		want := c
+		if k == "hwmon" {
+			mn, mx := 20+r.Intn(60), 150+r.Intn(100)
+			fan.CfgMin, fan.CfgMax = iptr(mn), iptr(mx)
+			want = mn + int(float64(c)/255*float64(mx-mn))
+		}
+		loop := pick(r, LoopSpec{Kind: "direct"}, LoopSpec{Kind: "ratelimit", M: 5 + r.Intn(30)})
+		// windows of 5 and more: fan2go feeds a failed poll into the RPM average as a 0 sample, which with a window of 1-2
+		// legitimately looks like a stall; with 5 and more a spinning fan stays far above the stall threshold
+		sc := &Scenario{Fan: fan, Plant: PlantSpec{Kind: "const", Const: 1500}, Map: MapSpec{Kind: "identity"}, Loop: loop, Window: pick(r, 5, 10, 20), InitPwm: r.Intn(256), InitMode: 1, PriorRpm: 1500}
+		glitches := 0
+		for i := 0; i < 260; i++ {
+			st := CycleStep{Curve: c, DtMs: 200, Polls: 1}
+			if i > 60 && r.Intn(25) == 0 {
+				st.PollFault = &FaultSpec{Target: "rpm", Op: "r"}
+				switch r.Intn(3) {
+				case 0:
+					st.PollFault.Action, st.PollFault.Errno = "fail", "EIO"
+				case 1:
+					st.PollFault.Action, st.PollFault.Raw = "content", ""
+				default:
+					st.PollFault.Action, st.PollFault.Raw = "content", "n/a\n"
+				}
+				glitches++
+			}
+			sc.Steps = append(sc.Steps, st)
+		}
+		bad := false
+		runScenario(ctx, sc, func(w *World, rec *CycleRecord) bool {
+			ctx.Eval(1)
+			if rec.Err != nil || rec.Panic != "" {
+				ctx.Violation("rpm-glitch:control-error-at-constant-curve:"+kind, fmt.Sprintf("cycle %d: %v %s", rec.Idx, rec.Err, firstLine(rec.Panic)), sc)
+				bad = true
+				return true
+			}
+			if rec.Idx >= 60 && rec.HasRequest && rec.Request != want {
+				ctx.Violation("rpm-glitch:request-leaves-steady-value:"+kind+":"+loop.Kind, fmt.Sprintf("cycle %d: request %d, steady value %d (curve %d, the fan reports 1500 RPM whenever it can be read, %d failed polls so far in the plan)", rec.Idx, rec.Request, want, c, glitches), sc)
+				bad = true
+				return true
+			}
+			return false
+		})
+		if !bad && glitches > 0 {
+			ctx.Nontrivial(fmt.Sprintf("rpm-glitch|%s|%s|%d|%d", kind, loop.Kind, c, glitches))
+		}
+	}
+}
+
 // c04StoppingFan: a fan that is allowed to stop (neverStop off) and has a tachometer; below a threshold it really
 // stops (0 RPM). With a constant curve value the request must still settle at S(c) and stay there however long the
 // curve idles - the stall protection is for never-stop fans only.
@@ -690,6 +745,7 @@ func init() {
 			c04StoppingFan(ctx, cfg, r)
 			c04RealFanLimits(ctx, r)
 			c04SeveralFans(ctx, i)
+			c04RpmGlitch(ctx, r)
 		}
 	})
 }
